@@ -17,9 +17,10 @@ from harness import impl
 from harness.props import c04
 
 PROP = 'C03'
-GENERATED = ['RngConsts', 'GrowOps', 'HistoryWriters']
+GENERATED = ['RngConsts', 'GrowOps', 'HistoryWriters', 'DistLink']
 DRIVER = 'Drivers/C03.lean'
-DRIVER_MODULES = ['StarsimModel.Model.Slots', 'StarsimModel.Model.History', 'StarsimModel.Model.Rng', 'StarsimModel.Model.Proto']
+DRIVER_MODULES = ['StarsimModel.Model.Slots', 'StarsimModel.Model.History', 'StarsimModel.Model.Rng', 'StarsimModel.Model.Proto',
+                  'StarsimModel.Model.Link', 'StarsimModel.Generated.DistLink']
 RULE = ('every family of ss.dist_list x parameter mode (scalar / per-agent array / callable) x slot assignment with repeats x '
         'uid request (subset, permuted, single, empty) x earlier sampling history; distinct = distinct (family, mode, slots, request, history); '
         'non-trivial = non-empty request with at least two agents')
@@ -222,6 +223,7 @@ def gen_long_case(rng, families, i):
     for _ in range(rng.choice([0, 1, 2])):
         hist.append(('draw', rng.choice([1, 3, 11])))
     c['history'] = hist; c['via'] = 'container'
+    c['lives'] = sorted((LIVES[(i + k) % len(LIVES)] for k in (1, 3)), key=lambda l: l == 'twice')     # (two of the other lifecycles per long case, rotating)
     if len(c['req']) == 0: c['req'] = [0, c['n'] - 1]
     return c
 
@@ -332,6 +334,7 @@ def correspond(ctx):
     correspond_filter(ctx)
     correspond_multi(ctx)
     correspond_saved_states(ctx)
+    correspond_link(ctx)
 
 
 def correspond_filter(ctx):
@@ -432,6 +435,54 @@ def correspond_saved_states(ctx):
             if (p['states'][j] == st) != True:
                 ctx.broke('correspondence', 'C03.saved-states', f"ss.{p['fam']}: states {j} and {k} of (saved states + current) should coincide (model position {ps})", data=short); return
         ctx.count('saved_state_sequences')
+
+
+def correspond_link(ctx):
+    """ (f) which generator OBJECT a draw reads, vs Model/Link.lean on the regenerated statements of `Dist.init`: random sequences of
+        initialisations (force=True) and calls / jumps on real distributions of every SciPy-backed family (and a custom SciPy one), created
+        strictly or loosely; compared: is the frozen sampler's `random_state` the Dist's own generator, and how many distinct
+        generator objects the Dist has had. """
+    import starsim as ss
+    import scipy.stats as sps
+    rng = ctx.rng
+    fams = [f for f in ss.dist_list if getattr(getattr(ss, f)(**impl.DIST_PARS[f], strict=False), 'dist', None) is not None]
+    if not fams:
+        ctx.broke('correspondence', 'C03.link', 'no family of ss.dist_list is backed by a SciPy sampler any more: Model/Link.lean models nothing'); return
+    ctx.notes['scipy_backed_families'] = fams
+    makers = [(f, (lambda f=f, **kw: getattr(ss, f)(**impl.DIST_PARS[f], **kw))) for f in fams] + [('custom-beta', lambda **kw: ss.Dist(dist=sps.beta, a=2.0, b=5.0, **kw))]
+    lines = []; plan = []
+    for i in range(ctx.budget(24, 120)):
+        name, mk = makers[i % len(makers)]
+        loose = bool(i // len(makers) % 2)
+        slots = np.arange(6)
+        d = mk(strict=False) if loose else mk()
+        seen = [d.rng] if d.rng is not None else []
+        ops = 'i' if loose else ''                      # (a loose distribution has initialised itself)
+        proper = False
+        for _ in range(rng.randint(1, 6)):
+            if rng.random() < 0.5 or not proper:
+                proper = True
+                d.init(trace='l_%d' % i, seed=rng.randint(0, 50), sim=Sim0(slots), slots=slots, force=True); ops += 'i'
+                if not any(d.rng is g for g in seen): seen.append(d.rng)
+            else:
+                k = rng.random()
+                if k < 0.5: d.rvs(ss.uids(rng.sample(range(6), rng.randint(1, 6))))
+                elif k < 0.8: d.jump_dt(ti=rng.randint(1, 9), force=True)
+                else: d.reset()
+                ops += 's'
+        lines.append(f'link {ops}')
+        plan.append(dict(name=name, loose=loose, ops=ops, linked=d.dist.random_state is d.rng, made=len(seen)))
+    out = ctx.drive(DRIVER, lines)
+    for p, o in zip(plan, out):
+        ctx.case(('link', p['name'], p['loose'], p['ops']), p['ops'].count('i') >= 2, sample=dict(kind='link', family=p['name'], loose=p['loose'], ops=p['ops']))
+        m = dict(kv.split('=') for kv in o.split()) if o.startswith('linked=') else None
+        if m is None:
+            ctx.broke('correspondence', 'C03.link', f'driver answered {o[:60]!r}'); return
+        if (m['linked'] == 'true') != p['linked'] or int(m['made']) != p['made']:
+            ctx.broke('correspondence', 'C03.link', f"ss.{p['name']} ({'strict=False' if p['loose'] else 'strict'}), operations {p['ops']}: the SciPy sampler "
+                      f"{'reads' if p['linked'] else 'does NOT read'} the distribution's own generator and the distribution has had {p['made']} generator objects; "
+                      f"the model says linked={m['linked']}, {m['made']} generators", data=p); return
+        ctx.count('link_sequences')
 
 
 def correspond_multi(ctx):
@@ -544,9 +595,21 @@ def oracle_case(c):
         sub7 = draw(req, hist, via='dist' if via0 == 'container' else 'container')
         if not same(sub7, sub):
             return dict(signature=dict(sig, relation='container'), what=f'ss.{fam} ({mode}): values differ between timestep jumps made through the module container (ss.Dists.jump_dt) and through Dist.jump_dt')
+        # population size: append agents with larger slots
+        big = np.concatenate([slots, slots.max() + 1 + np.arange(7)])
+        if mode == 'scalar' or mode == 'callable' or mode == 'array':
+            sub3 = draw(req, hist, big)
+            if not same(sub3, sub):
+                return dict(signature=dict(sig, relation='popsize'), what=f'ss.{fam} ({mode}): values change when the population (largest slot) grows')
+        # permutation
+        perm = list(reversed(req))
+        sub4 = draw(perm, hist)
+        if not same(sub4, sub[::-1]):
+            return dict(signature=dict(sig, relation='permutation'), what=f'ss.{fam} ({mode}): values change with the order of the request')
         # object lifecycle: the same request after the same history on an object that was created loosely and re-initialised /
         # initialised twice / deep-copied / pickled and restored after a first draw (every lifecycle, in every case)
-        for life in ['once', 'loose', 'copy', 'pickle', 'twice']:
+        # (evaluated last, the twice-initialised object last of all: with seed 0 it is known finding C03-reinit-seed0)
+        for life in c.get('lives', ['once', 'loose', 'copy', 'pickle', 'twice']):
             if life == life0: continue
             try:
                 subl = draw(req, hist, life=life)
@@ -561,17 +624,6 @@ def oracle_case(c):
                 return dict(signature=dict(sig, relation='lifecycle', life=f'{a}/{b}', cause=cause),
                             what=f'ss.{fam} ({mode}): values differ between distribution objects with lifecycles `{a}` and `{b}` (same seed, name, parameters, timestep, call and slots)'
                                  + (f': the object initialised twice has seed {seeds.get("twice")}, the other {other} (seed=0 given both times)' if cause == 'seed-accumulates' else ''))
-        # population size: append agents with larger slots
-        big = np.concatenate([slots, slots.max() + 1 + np.arange(7)])
-        if mode == 'scalar' or mode == 'callable' or mode == 'array':
-            sub3 = draw(req, hist, big)
-            if not same(sub3, sub):
-                return dict(signature=dict(sig, relation='popsize'), what=f'ss.{fam} ({mode}): values change when the population (largest slot) grows')
-        # permutation
-        perm = list(reversed(req))
-        sub4 = draw(perm, hist)
-        if not same(sub4, sub[::-1]):
-            return dict(signature=dict(sig, relation='permutation'), what=f'ss.{fam} ({mode}): values change with the order of the request')
     return None
 
 
